@@ -62,6 +62,7 @@ Definition disc_step (reconnect : bool) (m : bool * phase) (e : ev) : bool * pha
        else match ph with PAtt k => PEnd k | _ => PBad end)
   | EConn | EUpd _ _ _ | ESync | ERecv _ _ | EImplSub _ =>
       (stopped, match ph with PAtt _ => ph | _ => PBad end)
+  | ENoBackoff => (stopped, PBad)   (* a retry without the backoff sleep *)
   | _ => m
   end.
 
@@ -123,6 +124,8 @@ Definition order_step (reconnect : bool) (sc : script) (m : ostate) (e : ev) : o
           | _ => {| o_stopped := o_stopped m; o_rest := []; o_cur := []; o_bad := true |}
           end
       end
+  | ECorrupt =>   (* a delivered notification did not stay as delivered *)
+      {| o_stopped := o_stopped m; o_rest := o_rest m; o_cur := o_cur m; o_bad := true |}
   | EDisc => if reconnect then stream_end else m
   | ESubRet _ => if reconnect then m else stream_end
   | _ => {| o_stopped := o_stopped m; o_rest := o_rest m; o_cur := o_cur m; o_bad := false |}
@@ -135,49 +138,56 @@ Definition k_order (reconnect : bool) (sc : script) (tr : list ev) : option nat 
 (** ** tag 5: after Close returned, at most one further message
        (none at all through a ReconnectClient, whose Close waits for Subscribe) *)
 
-Record astate := { a_closed : option bool;            (* Close returned (with nil?) *)
+Record astate := { a_closed : option bool;            (* a Close that counts returned (with nil?) *)
                    a_curmsg : nat * nat;              (* the Recv in progress *)
                    a_seen : option (nat * nat);       (* the one message seen after Close *)
+                   a_armed : bool;    (* bare client: the Subscribe call in progress has called its constructor *)
+                   a_pend : bool;     (* bare client: the Close in progress was called while armed *)
                    a_bad : bool }.
 
 Definition pair_eqb (a b : nat * nat) : bool := Nat.eqb (fst a) (fst b) && Nat.eqb (snd a) (snd b).
 
+Definition amk c m s ar pe b : astate :=
+  {| a_closed := c; a_curmsg := m; a_seen := s; a_armed := ar; a_pend := pe; a_bad := b |}.
+
+(** ReconnectClient: closed is a latch, every returned Close counts.  A bare
+    client is re-opened by a new Subscribe ([c.closed = false] on entry): the
+    clause is per Subscribe call, and a Close counts for the call in progress
+    when it was called after that call's first constructor call (a Close
+    overlapping the very entry of Subscribe is taken to precede it). *)
 Definition after_step (reconnect : bool) (m : astate) (e : ev) : astate :=
+  let '(Build_astate c cm sn ar pe _) := m in
   match e with
-  | ECloseRet ok => {| a_closed := Some ok; a_curmsg := a_curmsg m; a_seen := a_seen m; a_bad := false |}
-  | ERecv k i => {| a_closed := a_closed m; a_curmsg := (k, i); a_seen := a_seen m; a_bad := false |}
+  | ECloseCall => amk c cm sn ar (reconnect || ar) false
+  | ECloseRet ok => amk (if reconnect || pe then Some ok else c) cm sn ar pe false
+  | ERecv k i => amk c (k, i) sn ar pe false
+  | EFactory _ => amk c cm sn true pe false
+  | ESubRet _ => amk c cm sn false pe false
   | ESubCall =>
-      (* ReconnectClient: closed is a latch.  A bare client is re-opened by a new
-         Subscribe ([c.closed = false]): the clause is per Subscribe call. *)
-      if reconnect
-      then {| a_closed := a_closed m; a_curmsg := a_curmsg m; a_seen := a_seen m; a_bad := false |}
-      else {| a_closed := None; a_curmsg := a_curmsg m; a_seen := None; a_bad := false |}
+      if reconnect then amk c cm sn ar pe false else amk None cm None false pe false
   | EConn | EUpd _ _ _ | ESync =>
-      match a_closed m with
-      | None => m
+      match c with
+      | None => amk c cm sn ar pe false
       | Some ok =>
-          if reconnect
-          then {| a_closed := a_closed m; a_curmsg := a_curmsg m; a_seen := a_seen m; a_bad := true |}
+          if reconnect then amk c cm sn ar pe true
           else if ok
-               then match a_seen m with
-                    | None => {| a_closed := a_closed m; a_curmsg := a_curmsg m;
-                                 a_seen := Some (a_curmsg m); a_bad := false |}
-                    | Some c => {| a_closed := a_closed m; a_curmsg := a_curmsg m; a_seen := a_seen m;
-                                   a_bad := negb (pair_eqb c (a_curmsg m)) |}
+               then match sn with
+                    | None => amk c cm (Some cm) ar pe false
+                    | Some c0 => amk c cm sn ar pe (negb (pair_eqb c0 cm))
                     end
-               else m
+               else amk c cm sn ar pe false
       end
-  | _ => {| a_closed := a_closed m; a_curmsg := a_curmsg m; a_seen := a_seen m; a_bad := false |}
+  | _ => amk c cm sn ar pe false
   end.
 
 Definition k_after (reconnect : bool) (tr : list ev) : option nat :=
   mon_from (after_step reconnect) a_bad 0
-           {| a_closed := None; a_curmsg := (0, 0); a_seen := None; a_bad := false |} tr.
+           (amk None (0, 0) None false false false) tr.
 
 (** ** known findings
 
-    KF 1 (DEFECT C18_1): a bare client, Close called while a second or later
-    Subscribe call is in progress. *)
+    former KF 1 (DEFECT C18_1, fixed): a bare client, Close called while a second
+    or later Subscribe call is in progress. *)
 Fixpoint stale_close (nsub nret : nat) (tr : list ev) : bool :=
   match tr with
   | [] => false
@@ -187,18 +197,26 @@ Fixpoint stale_close (nsub nret : nat) (tr : list ev) : bool :=
   | _ :: tr' => stale_close nsub nret tr'
   end.
 
-Definition known_class (reconnect : bool) (l : list attempt) (tr : list ev) : N :=
-  if negb reconnect && stale_close 0 0 tr then 1%N else 0%N.
+Definition known_class (reconnect : bool) (l : list attempt) (tr : list ev) : N := 0%N.
+(** no open finding; KF 1 was fixed by /repo 4c160ca ([stale_close] is kept for the
+    regression witness of the unpatched variant) *)
 
 (** ** verdicts *)
 
-Definition case := (bool * list attempt * list ev)%type.
+(** (ReconnectClient?, callbacks observed?, script, recording).  With nil
+    callbacks (second component false) disconnect / reset are invisible: the
+    acceptance check hides them and the tag-3 monitor, which is about them, is
+    not evaluated. *)
+Definition case := (bool * bool * list attempt * list ev)%type.
 
 Definition fuel := 200.
 
 (** acceptance by the model of the code as it is now (with the DEFECT C18_1 branch) *)
 Definition model_accepts (reconnect : bool) (l : list attempt) (tr : list ev) : nat + list st :=
   accepts (step_now reconnect (sc_of l)) st_beq ev_beq fuel init tr.
+
+Definition model_accepts_nocb (reconnect : bool) (l : list attempt) (tr : list ev) : nat + list st :=
+  accepts (step_nocb reconnect (sc_of l)) st_beq ev_beq fuel init tr.
 
 (** acceptance by [step] alone, i.e. outside the known-finding class *)
 Definition model_accepts_strict (reconnect : bool) (l : list attempt) (tr : list ev) : nat + list st :=
@@ -207,12 +225,13 @@ Definition model_accepts_strict (reconnect : bool) (l : list attempt) (tr : list
 Definition tagk (k : N) (t : N) : N := match k with 0%N => t | _ => (10 + k)%N end.
 
 Definition check_case (c : case) : list (nat * N) :=
-  let '(rc, l, tr) := c in
+  let '(rc, cb, l, tr) := c in
   let kc := known_class rc l tr in
-  (match model_accepts rc l tr with inl i => [(i, 1%N)] | inr _ => [] end)
+  (match (if cb then model_accepts rc l tr else model_accepts_nocb rc l tr) with
+   | inl i => [(i, 1%N)] | inr _ => [] end)
   ++ (if k_term tr then [] else [(List.length tr, tagk kc 2%N)])
-  ++ (match k_disc rc tr with Some i => [(i, tagk kc 3%N)] | None => [] end)
-  ++ (match k_order rc (sc_of l) tr with Some i => [(i, tagk kc 4%N)] | None => [] end)
+  ++ (if cb then match k_disc rc tr with Some i => [(i, tagk kc 3%N)] | None => [] end else [])
+  ++ (match k_order (rc && cb) (sc_of l) tr with Some i => [(i, tagk kc 4%N)] | None => [] end)
   ++ (match k_after rc tr with Some i => [(i, tagk kc 5%N)] | None => [] end).
 
 Fixpoint check_all_from (i : nat) (cs : list case) : list (nat * nat * N) :=
